@@ -62,6 +62,9 @@ func MethodName(cc *ssa.CallCommon) string {
 		return cc.Method.Name()
 	}
 	if f := cc.StaticCallee(); f != nil {
+		if f.Origin() != nil {
+			f = f.Origin()
+		}
 		return f.Name()
 	}
 	if b, ok := cc.Value.(*ssa.Builtin); ok {
